@@ -34,8 +34,9 @@ def BiCGSTAB_reset(Op,rhs,x0,eps=1e-6,nmax=40):
         Ap = Op.matvec(p)
         alpha = tn.dot(r.squeeze(),r0p.squeeze()) / tn.dot(Ap.squeeze(),r0p.squeeze())
         s = r - alpha * Ap
-        if tn.linalg.norm(s)<eps:
+        if tn.linalg.norm(s)<eps*norm_rhs:
             x_n = x+alpha*p
+            r_nn = tn.linalg.norm(s)
             break
         
         As = Op.matvec(s)
